@@ -502,6 +502,17 @@ def check_C11(ctx):
     for x in st["samples"][:2]:
         ctx.sample({"kind": "rendezvous run", "case": x})
     validate_blocks(ctx, "RendezvousTrace", out, ["InvC11"], classify=None)
+    # the process confined to ONE cpu (a small container): a user pool still has its threads, siblings still overlap
+    if shutil.which("taskset"):
+        out = ctx.fresh("rv", "ndjson")
+        st = run_bin(ctx, "exec", ["rendezvous", "--seed", ctx.seed + 70, "--out", out, "--reps", 2, "--wmax", 5 if ctx.quick() else 12],
+                     timeout=3000, prefix=["taskset", "-c", "0"])
+        ctx.cov["impl_runs"].append({"kind": "impl->spec rendezvous runs with the process confined to one CPU (taskset -c 0)", "runs": st["runs"],
+                                     "reproduced_stalls": st["stalls"], "skipped_default_pool": st["skipped_default_pool"]})
+        ctx.cov["traces_validated_against_impl"] += st["runs"]
+        validate_blocks(ctx, "RendezvousTrace", out, ["InvC11"], classify=None)
+    else:
+        ctx.note("taskset not available: no one-CPU rendezvous pass")
     with nodebug_pass(ctx):
         out = ctx.fresh("rv", "ndjson")
         st = run_bin(ctx, "exec", ["rendezvous", "--seed", ctx.seed + 50, "--out", out, "--reps", 2, "--wmax", 6 if ctx.quick() else 16], timeout=3000)
